@@ -267,3 +267,21 @@ pub assume_specification<T> [std::option::Option::<T>::or] (_0: std::option::Opt
     where T: std::marker::Destruct,
     ensures r == (if _0 is Some { _0 } else { _1 }),
 ;
+
+// ---- a decoded query-string value (really Cow<str> from form_urlencoded::parse); view:
+// its pieces when split at a separator character
+#[verifier::external_body] pub struct QStr { _opaque: () }
+#[verifier::external_body] pub struct QSplit<'a> { _p: &'a QStr }
+impl<'a> Iterator for QSplit<'a> {
+    type Item = &'a str;
+    #[verifier::external_body]
+    fn next(&mut self) -> Option<&'a str> { unimplemented!() }
+}
+impl QStr {
+    pub uninterp spec fn parts_spec(&self, sep: char) -> Seq<&str>;
+    // (really str::split)
+    #[verifier::external_body]
+    pub fn split(&self, sep: char) -> (r: QSplit<'_>)
+        ensures r.remaining() == self.parts_spec(sep), r.obeys_prophetic_iter_laws(), r.decrease() is Some,
+    { unimplemented!() }
+}
